@@ -12,7 +12,7 @@ that leaves `run`), and after every step (completed, failed or raised) the persi
 Input (JSON, self-contained):
   {"phases": [{"name": str, "next": str, "body": [stmt, ...]}, ...],   # dict order = list order
    "initial": str,
-   "funcs":  {"<func>f": ["lin", a, b] | ["sq"] | ["pair"] | ["mix"] | ["vsum"]},
+   "funcs":  {"<func>f": ["lin", a, b] | ["sq"] | ["pair"] | ["mix"] | ["vsum"] | ["rhs"] | ["vpair"]},
    "state":  {name: number | [numbers]},          # initial <state>name values (list -> numpy array)
    "t0": number, "dt": number,
    "run": {"max_steps": int|null, "t_end": number|null},
@@ -204,6 +204,10 @@ def make_function(spec):
         return lambda x, y=1, tag=0: x + 2 * y
     if kind == "vsum":
         return lambda x, tag=0: float(np.sum(x))
+    if kind == "rhs":               # ODE right-hand side f(t, y) (used by the C15 method descriptions)
+        return lambda t, y: -0.5 * y + t
+    if kind == "vpair":
+        return lambda a, b: (a + b, a - b)
     raise ValueError("unknown function spec %r" % (spec,))
 
 
@@ -433,18 +437,45 @@ def drive(stepper, run, cap):
     return trace
 
 
-def unmentioned_state(inp):
-    """<state> components supplied by the caller that the program never mentions: the generated class
-    does not store them at all (the program cannot observe them), so they are not compared"""
-    used = names_in(inp)
-    return {"<state>" + k for k in inp["state"] if "<state>" + k not in used}
+_UNMENTIONED = {}
+
+
+def unmentioned_state(inp, gen_stepper=None):
+    """<state> components supplied by the caller that the built method never mentions (the builder
+    may simplify a mention away, e.g. `y*0`): the generated class does not store them at all and the
+    program cannot observe them, so they are not compared.  Decided by the real generator's name table."""
+    k = json.dumps([inp["phases"], sorted(inp["state"])], sort_keys=True)
+    if gen_stepper is None and k in _UNMENTIONED:
+        return _UNMENTIONED[k]
+    try:
+        if gen_stepper is None:
+            g = PyCodeGenerator("Stepper")
+            g(build_code(inp))
+        else:
+            g = gen_stepper.gen
+        used = set(g._name_manager.get_global_ids())
+    except Exception:       # noqa: BLE001 - no generated class: fall back to the written program
+        used = names_in(inp)
+    res = {"<state>" + n for n in inp["state"] if "<state>" + n not in used}
+    if len(_UNMENTIONED) > 5000:
+        _UNMENTIONED.clear()
+    _UNMENTIONED[k] = res
+    return res
+
+
+def filter_trace(trace, ignore):
+    if not ignore:
+        return trace
+    return [[e[0], {k: v for k, v in e[1].items() if k not in ignore}, e[2]] if e[0] == "state" else e
+            for e in trace]
 
 
 def run_real(kind, inp, interp_class=None, code=None):
+    """-> (trace with unfiltered state snapshots, stepper)"""
     code = code if code is not None else build_code(inp)
-    st = Stepper(kind, code, function_map(inp), interp_class=interp_class, ignore=unmentioned_state(inp))
+    st = Stepper(kind, code, function_map(inp), interp_class=interp_class)
     st.set_up(inp["t0"], inp["dt"], inp["state"])
-    return drive(st, inp["run"], inp.get("cap", 40))
+    return drive(st, inp["run"], inp.get("cap", 40)), st
 
 
 # ---- the independent program-order executor ----------------------------------------------------------
@@ -510,7 +541,7 @@ class Ref:
         self.phases = {ph["name"]: ph for ph in inp["phases"]}
         self.funcs = funcs if funcs is not None else function_map(inp)
         self.store = {"<t>": inp["t0"], "<dt>": inp["dt"]}
-        self.ignore = unmentioned_state(inp)
+        self.ignore = set()         # callers may set it (names left out of snapshot())
         for k, v in inp["state"].items():
             self.store["<state>" + k] = initial_value(copy.deepcopy(v))
         self.next_phase = inp["initial"]
@@ -835,14 +866,17 @@ def _evaluate(inp, interp_class=None):
                 "diag": {}}
     diag = {"ref_stmts": r.stmts_executed, "zero_trip": sorted(set(r.zero_trip_idents)),
             "ref_events": [e[0] for e in ref], "kinds": sorted(r.kinds_seen)}
+    gen_st = None
     try:
-        ti = run_real("interp", inp, interp_class=interp_class)
+        ti, _ = run_real("interp", inp, interp_class=interp_class)
     except Exception as ex:     # noqa: BLE001 - building/constructing failed in the real code
         ti = [["construction-error", error_kind(ex)]]
     try:
-        tg = run_real("gen", inp)
+        tg, gen_st = run_real("gen", inp)
     except Exception as ex:     # noqa: BLE001
         tg = [["construction-error", error_kind(ex)]]
+    ignore = unmentioned_state(inp, gen_st)
+    ref, ti, tg = filter_trace(ref, ignore), filter_trace(ti, ignore), filter_trace(tg, ignore)
     diag["interp_eq_ref"] = ti == ref
     diag["gen_eq_ref"] = tg == ref
     diag["interp_eq_gen"] = ti == tg
@@ -1248,7 +1282,7 @@ class Gen:
         out = []
         name = self.new_temp(env, "<p>arr" if persistent else "a")
         size_e = n
-        if rng.random() < 0.5 and not persistent:
+        if rng.random() < 0.5 and not persistent and (self.cfg["guarded_bounds"] or not env.get("in_if")):
             nv = self.new_temp(env, "n")
             out.append(["assign", nv, n])
             env["sizevars"][nv] = n
@@ -1278,7 +1312,11 @@ class Gen:
         return e
 
     def bounds(self, env, name, n):
-        """(lo, hi, static hi) with 0 <= lo and hi <= n; maybe zero-trip, maybe held in variables"""
+        """(lo, hi, static lo, static hi) with 0 <= lo and hi <= n; maybe zero-trip, maybe held in
+        variables.  Only variables read by the creation of `name` are used: the loop depends on the
+        creation (it writes the array), the creation on the assignment of the variable, so the bound
+        is assigned before the loop in every admissible schedule (no reliance on a declared read of
+        the bound, cf. finding D8)."""
         rng = self.rng
         svs = [v for v in env["arr_sizevars"].get(name, []) if v in env["sizevars"]]
         pos = [v for v in svs if env["sizevars"][v] > 0]
@@ -1286,17 +1324,17 @@ class Gen:
         r = rng.random()
         if self.cfg["zero_trip"] and r < 0.3:
             k = rng.randint(0, n)
-            choices = [(0, 0, 0), (k, k, k), (min(k + 1, n), k, k)]
+            choices = [(0, 0, 0, 0), (k, k, k, k), (min(k + 1, n), k, min(k + 1, n), k)]
             if zer:
-                choices += [(0, zer[0], 0), (zer[0], zer[0], 0)]
+                choices += [(0, zer[0], 0, 0), (zer[0], zer[0], 0, 0)]
             if pos:
-                choices += [(pos[0], pos[0], n), (pos[0], n, n)]
+                choices += [(pos[0], pos[0], n, n), (pos[0], n, n, n)]
             return rng.choice(choices)
-        choices = [(0, n, n), (1, n, n), (0, n - 1, n - 1)]
+        choices = [(0, n, 0, n), (1, n, 1, n), (0, n - 1, 0, n - 1)]
         if pos:
-            choices += [(0, pos[0], n), (1, pos[0], n), (0, ["-", pos[0], 1], n - 1)]
+            choices += [(0, pos[0], 0, n), (1, pos[0], 1, n), (0, ["-", pos[0], 1], 0, n - 1)]
         if zer and pos:
-            choices += [(zer[0], pos[0], n)]
+            choices += [(zer[0], pos[0], 0, n)]
         return rng.choice(choices)
 
     def loop_stmt(self, env):
@@ -1305,13 +1343,14 @@ class Gen:
         if not arrs:
             return []
         name, n = rng.choice(arrs)
-        lo, hi, shi = self.bounds(env, name, n)
+        lo, hi, slo, shi = self.bounds(env, name, n)
         r = rng.random()
         if r < 0.25 and env["scalar_temps"]:
-            # accumulation into a scalar:  s <- s + a[i]  [i=lo..hi]
-            s = rng.choice(sorted(env["scalar_temps"]))
+            # accumulation into a scalar:  s <- s + e(i)  [i=lo..hi]   (constant bounds: the statement
+            # does not write the array, so nothing orders it after the assignment of a bound variable)
+            sc = rng.choice(sorted(env["scalar_temps"]))
             env2 = self.with_loop(env, "i", shi)
-            return [["assign", s, ["+", s, self.expr(env2, 1)], [["i", lo, hi]]]]
+            return [["assign", sc, ["+", sc, self.expr(env2, 1)], [["i", slo, shi]]]]
         if r < 0.4 and n >= 3:
             # two nested loops:  a[i + j] <- e  [i=0..2][j=0..n-1]
             env2 = self.with_loop(self.with_loop(env, "i", 10 ** 9), "j", 10 ** 9)   # no a[i] reads
@@ -1393,7 +1432,10 @@ class Gen:
                 out.extend(self.loop_stmt(env))
             elif r < 0.74 and env["arrays"]:
                 name, n = rng.choice(sorted(env["arrays"].items()))
-                out.append(["assign_sub", name, rng.randrange(n), self.expr(env, 1), []])
+                e = self.expr(env, 1)
+                if isinstance(e, list) and e[0] == "call":
+                    e = ["+", e, 0.5]       # the builder refuses `a[k] <- f(..)` (call statement, subscripted target)
+                out.append(["assign_sub", name, rng.randrange(n), e, []])
             elif r < 0.86:
                 comp = rng.choice(["y", "z"])
                 val = self.expr(env, 1)
@@ -1413,6 +1455,7 @@ class Gen:
             e[k] = set(env[k])
         for k in ("arrays", "sizevars", "arr_sizevars", "loopvars"):
             e[k] = dict(env[k])
+        e["in_if"] = True
         return e        # "used" stays shared: fresh names are globally fresh within the phase
 
     def if_stmt(self, env, depth):
